@@ -409,6 +409,16 @@ func (db *DB) ReleaseRemoteHaltLock(ctx context.Context, lockID int64) (retErr e
 // This only removes the reference locally as it's assumed it has already been
 // removed on the primary.
 func (db *DB) UnsetRemoteHaltLock(ctx context.Context, lockID int64) (retErr error) {
+	return db.unsetRemoteHaltLock(ctx, lockID, db.Recover)
+}
+
+// unsetRemoteHaltLockNoLock is UnsetRemoteHaltLock for a caller that already
+// holds the write lock, which Recover would otherwise wait for forever.
+func (db *DB) unsetRemoteHaltLockNoLock(ctx context.Context, lockID int64) error {
+	return db.unsetRemoteHaltLock(ctx, lockID, db.recover)
+}
+
+func (db *DB) unsetRemoteHaltLock(ctx context.Context, lockID int64, recoverFn func(context.Context) error) (retErr error) {
 	TraceLog.Printf("[UnsetRemoteHaltLock(%s)]:", db.name)
 
 	haltLock := db.remoteHaltLock.Load().(*HaltLock)
@@ -424,7 +434,7 @@ func (db *DB) UnsetRemoteHaltLock(ctx context.Context, lockID int64) (retErr err
 	}()
 
 	// Checkpoint when we release the remote lock.
-	if err := db.Recover(ctx); err != nil {
+	if err := recoverFn(ctx); err != nil {
 		return fmt.Errorf("recovery: %w", err)
 	}
 
